@@ -20,12 +20,18 @@ RULE = ('histories over 2-3 shared leaves: build ops (re-using any earlier resul
         'ancestors were listed / counted / printed / zeroed / handed to an optimizer; resets go through Module.zero_grad of any node '
         'and through Optimizer.zero_grad of optimizers built from node.parameters() at any earlier moment; the model sees the tree '
         'as C12 protocol lines (Synap.Modules: parameters() compared after every change) and the reset as the zeroing of exactly '
-        'the parameters reachable at that moment (for an optimizer: at its construction) that require grad.')
+        'the parameters reachable at that moment (for an optimizer: at its construction) that require grad. '
+        'EVERY OP of the catalogue (tensor ops and nn ops, the list-valued concat / stack / unbind among them; builder and oracle of C03) as a '
+        'node that SEVERAL backward calls traverse: the same root twice, a root and then a composite root containing it (l1, then l1 + l2) '
+        'in either order, an output of the op itself as root (non-uniform upstream gradient) before / between / after the final roots, '
+        '2-7 calls, the leaves zeroed in between (Tensor.zero_ / Module.zero_grad / Optimizer.zero_grad) or left to accumulate; after every '
+        'call every leaf gradient is compared with the model and — by the oracle — with the accumulated chain-rule value (finite differences).')
 EXHAUSTIVE = {'quick': False, 'thorough': False}
 ASSUMPTIONS = ['float64 programs']
-TRUSTED_BASE = ['harness/tprog.py, harness/gen_dag.py', 'harness/props/c04.py: TreeModel (which leaves a reset of a module tree must reach: walk over attributes)']
+TRUSTED_BASE = ['harness/tprog.py, harness/gen_dag.py', 'harness/props/c03.py: shared_case / hist_oracle (histories through every op of the catalogue)', 'harness/props/c04.py: TreeModel (which leaves a reset of a module tree must reach: walk over attributes)']
 tprog.RESET_ROUTES = True
 ALLOW = ['add', 'mul', 'neg', 'sum', 'clone', 'self2', 'reshape', 'slice', 'unbind', 'stack', 'pow', 'mean',
+         'concat', 'matmul', 'transpose', 'movedim', 'flatten', 'squeeze', 'unsqueeze',       # (the rest of the generator's tensor-op catalogue)
          # nn ops that save something at forward time for their backward (probabilities, masks): a second sweep through the same node must find it intact
          'relu', 'tanh', 'sigmoid', 'softmax', 'log_softmax', 'cross_entropy', 'cross_entropy']
 
@@ -404,6 +410,16 @@ def cases(rng, tier):
         out.append(mk(P, evs, nbw, tree=True)); out[-1]['stats'] = stats
     for P, evs in corpus():
         out.append(mk(P, evs, 2))
+    # every op of the catalogue as a node that several backward calls traverse (histories of C03: same root twice, l1 then l1 + l2,
+    # an output of the op as root and then the final root, with / without zeroing in between)
+    import gen_ops
+    from props import c03
+    for op in gen_ops.OPS_BASIC + gen_ops.OPS_NN:
+        for k in range((3 if op in ('concat', 'stack', 'unbind') else 2) if tier == 'quick' else 40):
+            c = c03.shared_case(rng, op)
+            if c:
+                c.update({'order': None, 'evs': c['events'], 'nbw': sum(1 for e in c['events'] if e[0] == 'bw'), 'tree': False})
+                out.append(c)
     if tier == 'thorough':
         # EXHAUSTIVE sub-family: a fixed graph  x, w leaves; a = x*w; b = a + x; c = a*b (diamond with fan-out); every history of
         # length <= 4 over {backward from a / b / c / x, retain_grad(a), retain_grad(b), zero x, enter / exit retain_grads}
@@ -551,6 +567,9 @@ def _run(c):
 
 
 def impl(c):
+    if c.get('kind') == 'hist':
+        from props import c03
+        return c03.impl(c)
     return _run(c)
 
 
@@ -565,6 +584,10 @@ def nontrivial(c):
 
 def distribution(cases):
     d = {}
+    hist = [c for c in cases if c.get('kind') == 'hist']
+    if hist:
+        from props import c03
+        d.update({k: v for k, v in c03.distribution(hist).items() if k.startswith('histor')})
     for c in cases:
         if c.get('exhaustive'):
             k = 'exhaustive: all histories of length <= 4 over 9 events on the diamond graph'
@@ -607,6 +630,11 @@ def _isolated(P, upto_nodes, root, g):
 
 
 def oracle(c):
+    if c.get('kind') == 'hist':
+        from props import c03
+        f = c03.oracle(c)
+        if f: f['case'] = dict(f['case'], kind='hist')
+        return f
     P, evs = c['P'], c['evs']
     leaves = [n['outs'][0] for n in P.nodes if n['kind'] == 'leaf']
     rg = {n['outs'][0]: n['rg'] for n in P.nodes if n['kind'] == 'leaf'}
@@ -667,6 +695,11 @@ def _strip(c, nev=None):
 
 
 def _unstrip(d):
+    if d.get('kind') == 'hist':
+        from props import c03
+        c = c03._unstrip(d)
+        c.update({'kind': 'hist', 'evs': c['events'], 'nbw': sum(1 for e in c['events'] if e[0] == 'bw'), 'tree': False})
+        return c
     P = gen_dag.Prog()
     for nd in d['nodes']:
         if nd['kind'] == 'leaf':
@@ -686,6 +719,15 @@ def search(rng, tier):
             P, evs, nbw = gen_history(rng, 'quick')
             f = oracle(mk(P, evs, nbw))
         if f: yield f
+    import gen_ops
+    from props import c03
+    for op in gen_ops.OPS_BASIC + gen_ops.OPS_NN:
+        for _ in range(2):
+            c = c03.shared_case(rng, op)
+            f = c and c03.oracle(c)
+            if f:
+                f['case'] = dict(f['case'], kind='hist')
+                yield f
 
 
 def matches_known(k, fail): return k.get('key') == fail.get('key')
